@@ -701,6 +701,10 @@ func writeEvidence(ck *Check, tier string, seed int64, spaces []Space, res *Resu
 		// explicit-state searches report their own distinct states; a transition is one executed case
 		states, trans = res.States, res.Evals
 	}
+	traces := res.Evals
+	if ck.SchedulerStyle {
+		states, trans, traces = res.States, res.Transitions, res.States
+	}
 	if states == 0 {
 		states = res.Evals
 	}
@@ -710,7 +714,7 @@ func writeEvidence(ck *Check, tier string, seed int64, spaces []Space, res *Resu
 	cov := map[string]interface{}{
 		"states":                        states,
 		"transitions":                   trans,
-		"traces_validated_against_impl": res.Evals,
+		"traces_validated_against_impl": traces,
 		"evaluations":                   res.Evals,
 		"distinct_nontrivial":           states,
 		"operations_on_implementation":  res.Transitions,
